@@ -663,3 +663,133 @@ func conditionalLayoutAgreement(c *core.Ctx, r *core.Rule) {
 		r.Missing("layers/conditional offsets", fmt.Sprintf("only %d fields with a running offset on both sides found", n))
 	}
 }
+
+// nestedFlagAgreement (R19.14): a decoder that validates a length with a
+// helper H(x *T, …) and then reads the optional parts of x itself walks the
+// same decision tree over the presence flags of T as the helper does: "under
+// flag M, flag m chooses the wide form".  The sets of (outer flag → inner
+// flag) nestings over bool fields of T must be equal in the helper and in its
+// caller; a helper that consults another flag than the reader does validates
+// one layout while another is read.
+func nestedFlagAgreement(c *core.Ctx, r *core.Rule) {
+	p := c.P
+	roots := p.Roots()
+	pairs := func(fn *ssa.Function, t *types.Named) map[string]bool {
+		type tst struct {
+			f   string
+			blk *ssa.BasicBlock
+			tru *ssa.BasicBlock
+		}
+		var tests []tst
+		for _, b := range fn.Blocks {
+			iff, ok := b.Instrs[len(b.Instrs)-1].(*ssa.If)
+			if !ok {
+				continue
+			}
+			cond := iff.Cond
+			pol := true
+			for {
+				if u, ok := cond.(*ssa.UnOp); ok && u.Op == token.NOT {
+					cond, pol = u.X, !pol
+					continue
+				}
+				break
+			}
+			ld, ok := cond.(*ssa.UnOp)
+			if !ok || ld.Op != token.MUL {
+				continue
+			}
+			fa, ok := ld.X.(*ssa.FieldAddr)
+			if !ok {
+				continue
+			}
+			pt, ok := fa.X.Type().Underlying().(*types.Pointer)
+			if !ok || !types.Identical(pt.Elem(), t) {
+				continue
+			}
+			ts := b.Succs[0]
+			if !pol {
+				ts = b.Succs[1]
+			}
+			tests = append(tests, tst{core.FieldOfAddr(fa).Name(), b, ts})
+		}
+		out := map[string]bool{}
+		for _, o := range tests {
+			for _, i := range tests {
+				if o.blk == i.blk {
+					continue
+				}
+				if len(o.tru.Preds) == 1 && (o.tru == i.blk || o.tru.Dominates(i.blk)) {
+					out[o.f+"→"+i.f] = true
+				}
+			}
+		}
+		return out
+	}
+	n := 0
+	cg := p.CG(false)
+	for _, h := range core.SortedFns(roots.DecReach) {
+		if !p.InModule(h) || len(h.Blocks) == 0 || len(h.Params) == 0 {
+			continue
+		}
+		res := h.Signature.Results()
+		if res.Len() != 1 {
+			continue
+		}
+		if bt, ok := res.At(0).Type().Underlying().(*types.Basic); !ok || bt.Info()&(types.IsInteger|types.IsBoolean) == 0 {
+			continue
+		}
+		var t *types.Named
+		for _, pa := range h.Params {
+			if pt, ok := pa.Type().Underlying().(*types.Pointer); ok {
+				if nt, ok := pt.Elem().(*types.Named); ok {
+					if _, isS := nt.Underlying().(*types.Struct); isS {
+						t = nt
+					}
+				}
+			}
+		}
+		if t == nil {
+			continue
+		}
+		hp := pairs(h, t)
+		if len(hp) == 0 {
+			continue
+		}
+		node := cg.Nodes[h]
+		if node == nil {
+			continue
+		}
+		seen := map[*ssa.Function]bool{}
+		for _, e := range node.In {
+			f := e.Caller.Func
+			if seen[f] || !roots.DecReach[f] {
+				continue
+			}
+			seen[f] = true
+			fp := pairs(f, t)
+			if len(fp) == 0 {
+				continue
+			}
+			n++
+			names := func(m map[string]bool) string {
+				var s []string
+				for k := range m {
+					s = append(s, k)
+				}
+				sort.Strings(s)
+				return strings.Join(s, ", ")
+			}
+			key := fmt.Sprintf("%s~%s/nested-flags:%s", core.FnKey(h), core.FnKey(f), t.Obj().Name())
+			if names(hp) == names(fp) {
+				r.OK(key, p.Pos(h.Pos()), "both nest the flags of "+t.Obj().Name()+" as "+names(hp))
+			} else {
+				r.Violate(key, p.Pos(h.Pos()), fmt.Sprintf("%s nests the flags of %s as {%s}, but %s, which relies on it to validate the length before reading the optional parts, nests them as {%s}: for the flag combinations on which the two differ a length is accepted that does not cover what is then read (slice bounds out of range), or a correct one is rejected", core.FnKey(h), t.Obj().Name(), names(hp), core.FnKey(f), names(fp)), nil)
+			}
+		}
+	}
+	c.Counts["nested_flag_pairs"] = n
+	if n < 1 {
+		r.Missing("decode/validator-reader flag nestings", "no helper/caller pair nesting bool fields of one struct found (TCP MPTCP DSS was confirmed by reading)")
+	}
+}
